@@ -485,7 +485,7 @@ def tiers(tier):
     for kind in sorted(KINDS):
         for attached in (True, False):
             d = depth
-            if tier == 'quick' and (not attached or kind in ('deep', 'multior', 'mask', 'element', 'category')):
+            if tier == 'quick' and not attached and kind in ('deep', 'multior', 'mask', 'element', 'category'):
                 d = 3
             out.append(('%s/%s' % (kind, 'attached' if attached else 'free'), Scenario(kind, attached), d))
     return out
